@@ -112,6 +112,8 @@ fn main() {
         ("replay", "td") => replay::<td::TdSut>(&args),
         ("scenario", "td") => scenario::<td::TdSut>(&args),
         ("drive", "td") => td::drive(&args),
+        ("scenario", "tdr") => scenario::<td::TdRealSut>(&args),
+        ("drive", "tdr") => td::drive_real(&args),
         ("rank", "td") => td::rank(&args),
         ("sizing", _) => sizing::run(&args),
         ("mem", _) => mem::run(&args),
